@@ -107,10 +107,11 @@ type lstate struct {
 	UpKey     string
 	Pending   map[string]string // copy in flight: body read from the source ("\x00" = source missing)
 	Uploads   map[string]bool   // ids handed out by concurrent initiate requests
+	Auto      bool              // a request that needs the bucket creates it
 }
 
 func (s *lstate) clone() *lstate {
-	n := &lstate{Bucket: s.Bucket, Versioned: s.Versioned, Upload: s.Upload, UpKey: s.UpKey,
+	n := &lstate{Bucket: s.Bucket, Versioned: s.Versioned, Upload: s.Upload, UpKey: s.UpKey, Auto: s.Auto,
 		Objs: map[string]lobj{}, Vers: map[string][]lver{}, IDs: map[string]bool{}, Parts: map[int]string{}, Pending: map[string]string{}}
 	for k, v := range s.Objs {
 		n.Objs[k] = v
@@ -177,6 +178,11 @@ func lstep(st *lstate, in cOp, out cOut) (bool, *lstate) {
 		n := st.clone()
 		n.Bucket = false
 		return out.Status == 204, n
+	}
+	if !st.Bucket && st.Auto {
+		// first use creates the bucket, then the operation proceeds as usual
+		st = st.clone()
+		st.Bucket = true
 	}
 	if !st.Bucket {
 		return out.Status == 404 && (out.Code == "NoSuchBucket" || in.Kind == "head"), st
@@ -377,6 +383,7 @@ type c07Scenario struct {
 	upload    bool  // setup initiates an upload on key k
 	setupOps  []cOp // sequential setup (puts / parts)
 	noBucket  bool  // start without the bucket
+	auto      bool  // auto-bucket creation on (first use of a bucket creates it)
 	threads   [][]cOp
 	final     []cOp
 	lessBound int // explored with a preemption bound lowered by this much (4-5 client scenarios)
@@ -397,6 +404,10 @@ func c07Scenarios() []c07Scenario {
 			final:   []cOp{{Kind: "get", Key: "k"}, {Kind: "list"}}},
 		{name: "five-clients-two-keys", kinds: []drv.Kind{drv.Mem, drv.MultiMem}, lessBound: 1, setupOps: []cOp{{Kind: "put", Key: "k", Body: "A"}},
 			threads: [][]cOp{{{Kind: "put", Key: "k", Body: "BB"}}, {{Kind: "copy", Key: "k", Key2: "k2"}}, {{Kind: "delete", Key: "k2"}}, {{Kind: "get", Key: "k2"}}, {{Kind: "list"}}},
+			final:   []cOp{{Kind: "get", Key: "k"}, {Kind: "get", Key: "k2"}, {Kind: "list"}}},
+		// auto-bucket: concurrent first uses of a bucket that does not exist yet
+		{name: "autobucket-put-put-get", kinds: []drv.Kind{drv.Mem, drv.Bolt, drv.MultiMem}, noBucket: true, auto: true,
+			threads: [][]cOp{{{Kind: "put", Key: "k", Body: "A"}}, {{Kind: "put", Key: "k2", Body: "BB"}}, {{Kind: "get", Key: "k"}}},
 			final:   []cOp{{Kind: "get", Key: "k"}, {Kind: "get", Key: "k2"}, {Kind: "list"}}},
 		// concurrent initiates: every acknowledged upload id is distinct and all of them are listed
 		{name: "initiate-initiate-listuploads", kinds: []drv.Kind{drv.Mem, drv.Bolt},
@@ -627,7 +638,7 @@ func (r *c07Runner) unlock() {
 
 // prepare builds the world and the initial model state.
 func (r *c07Runner) prepare() (*lstate, error) {
-	cfg := drv.Config{Kind: r.kind}
+	cfg := drv.Config{Kind: r.kind, AutoBucket: r.sc.auto}
 	if r.kind.IsFs() {
 		cfg.FsWrap = drv.NewSchedFs
 	}
@@ -636,7 +647,7 @@ func (r *c07Runner) prepare() (*lstate, error) {
 		return nil, err
 	}
 	r.w = w
-	init := &lstate{Objs: map[string]lobj{}, Vers: map[string][]lver{}, IDs: map[string]bool{}, Parts: map[int]string{}, Pending: map[string]string{}, UpKey: "k"}
+	init := &lstate{Objs: map[string]lobj{}, Vers: map[string][]lver{}, IDs: map[string]bool{}, Parts: map[int]string{}, Pending: map[string]string{}, UpKey: "k", Auto: r.sc.auto}
 	if !r.sc.noBucket || r.kind.IsSingle() {
 		init.Bucket = true
 		if !r.kind.IsSingle() {
